@@ -137,6 +137,8 @@ def replay(scn, *, ver, retries, life=True, rng=None, seed=0, target="lan"):
                     s.jumpauth()
                 elif a == "jumphalf":
                     s.jumphalf()
+                elif a == "setlife":
+                    s.setlife()
                 elif a == "jumplife":
                     s.jumplife()
                 elif a == "timer":
@@ -170,7 +172,7 @@ def replay(scn, *, ver, retries, life=True, rng=None, seed=0, target="lan"):
 def walk(seed, *, ver=3, retries=3, steps=40, life=True, weights=None, hs_mix=None, data_mix=None):
     rng = random.Random(f"walk:{seed}")
     s = sched.Session(version=ver, retries=retries, lifetime=LIFE if life else None, seed=seed)
-    W = {"cancel": 0.15, "peerclose": 0.1, "jumpauth": 0.3, "jumphalf": 0.4, "jumplife": 0.3, "call_auth_bad": 0.3, "connhang": 0.3, "connrefuse": 0.3,
+    W = {"cancel": 0.15, "peerclose": 0.1, "jumpauth": 0.3, "jumphalf": 0.4, "setlife": 0.3, "jumplife": 0.3, "call_auth_bad": 0.3, "connhang": 0.3, "connrefuse": 0.3,
          "deliver": 2.0, "drop": 0.15}
     W.update(weights or {})
     hs_all = hs_mix or (["valid"] * 4 + sched.REPLY_CLASSES_HS)
@@ -198,6 +200,8 @@ def walk(seed, *, ver=3, retries=3, steps=40, life=True, weights=None, hs_mix=No
                 s.jumpauth()
             elif a == "jumphalf":
                 s.jumphalf()
+            elif a == "setlife":
+                s.setlife()
             elif a == "jumplife":
                 s.jumplife()
             elif a[0] == "deliver":
@@ -225,6 +229,7 @@ def model_enabled(s):
         exp = getattr(lan, "_connection_expiration", None)
         if proto is not None and s.lifetime is not None and exp is not None and vloop.VClock.now(exp.tzinfo) <= exp:
             en.append("jumplife")
+            en.append("setlife")
     else:
         en.append("cancel")
         if s.net.pending_connect is not None:
